@@ -8,12 +8,20 @@
      vrp-core/src/construction/features/known_edge.rs :: KnownEdgeObjective::fitness (keep_solution_fitness = false: constant +0.0)
      vrp-pragmatic/src/format/problem/goal_reader.rs ::
        get_objectives (default objectives), get_objective_feature_layer (nesting), get_features_with_goal,
-       eval_multi_objective_strategy (the layer comparator of every MultiStrategy), create_goal_context (the GoalContextBuilder calls)
+       eval_multi_objective_strategy (the layer comparator AND the cost-estimate function of every MultiStrategy: `sum` = f64 sum of
+       the estimates, `weighted-sum` = f64 sum of estimate * weights[idx]), create_goal_context (the GoalContextBuilder calls)
+     vrp-core/src/models/goal.rs :: Goal::estimate / GoalContext::estimate (one component per LAYER, collected into an InsertionCost),
+       GoalBuilder::add_single (estimate = objectives[0].estimate) / add_multi (any objective list, also the empty one)
      vrp-core/src/construction/enablers/feature_combinator.rs :: FeatureCombinator::combine (name of the combined feature, no objective)
+     vrp-scientific/src/common/text_reader.rs :: get_essential_features, create_goal_context_prefer_min_tours (solomon, lilim readers),
+       create_goal_context_distance_only (tsplib reader)
    A solution is seen through its state vector `s : list Z` (bit patterns): `getd s i` is the fitness the i-th objective computes.
-   Feature names are `list nat` ("a+b" = the concatenation; known_edge = [0]).  Entry points of the correspondence: run_gctx, run_reader.
+   A move is seen through its estimate vector `e : list Z` (bit patterns): `getd e i` is what the i-th objective estimates for it
+   (known_edge estimates +0.0 for route moves and for activity moves of a solution without footprint: the moves of the correspondence).
+   Feature names are `list nat` ("a+b" = the concatenation; known_edge = [0]).
+   Entry points of the correspondence: run_gctx, run_gctx_est, run_reader, run_reader_est, run_sci.
    No proofs in this file. *)
-From VRP Require Import Base.Tac Base.TotalCmp Model.CostOrder.
+From VRP Require Import Base.Tac Base.TotalCmp Model.CostOrder Model.InsCost.
 
 Inductive gres (A : Type) := GOk (a : A) | GErr (code : nat).
 Arguments GOk {A} a.
@@ -37,8 +45,8 @@ Definition E_EMPTY_FEATURE : nat := 10.  (* "empty feature is not allowed" (comb
 Inductive obj := OFeat (i : nat) | OKnownEdge.
 Definition ofit (s : list Z) (o : obj) : Z := match o with OFeat i => getd s i | OKnownEdge => 0 end.
 
-(* MultiStrategy: the weights of weighted-sum enter the insertion estimate only; the reader checks their number *)
-Inductive strategy := SSum | SWeightedSum (nweights : nat).
+(* MultiStrategy: the weights (bit patterns) of weighted-sum enter the insertion estimate only; the reader checks their number *)
+Inductive strategy := SSum | SWeightedSum (ws : list Z).
 
 (* eval_multi_objective_strategy: the total_order_fn handed to add_multi, per strategy, as written *)
 Definition strategy_cmp (st : strategy) (fa fb : list Z) : comparison :=
@@ -56,6 +64,30 @@ Definition layer_cmp (l : glayer) (sa sb : list Z) : comparison :=
   end.
 
 Definition goal := list glayer.
+
+(* the cost-estimate function of a layer.  add_single: objectives[0].estimate(move).  eval_multi_objective_strategy:
+   sum = os.iter().map(|o| o.estimate(m)).sum();  weighted-sum = os.iter().enumerate().map(|(idx, o)| o.estimate(m) * weights[idx]).sum()
+   (None = the index panic of weights[idx] when there are fewer weights than objectives) *)
+Definition oest (e : list Z) (o : obj) : Z := match o with OFeat i => getd e i | OKnownEdge => 0 end.
+Definition strategy_est (st : strategy) (es : list Z) : option Z :=
+  match st with
+  | SSum => Some (f64_sum es)
+  | SWeightedSum ws => if (length ws <? length es)%nat then None else Some (f64_sum (map2 f64_mul es ws))
+  end.
+Definition layer_est (l : glayer) (e : list Z) : option Z :=
+  match l with
+  | GSingle o => Some (oest e o)
+  | GMulti st os => strategy_est st (map (oest e) os)
+  end.
+(* Goal::estimate : layers.iter().map(estimate_fn).collect::<InsertionCost>() *)
+Fixpoint gestimate (g : goal) (e : list Z) : option (list Z) :=
+  match g with
+  | [] => Some []
+  | l :: g' => match layer_est l e, gestimate g' e with
+               | Some v, Some r => Some (v :: r)
+               | _, _ => None
+               end
+  end.
 
 (* Goal::total_order : try_fold over the layers, break on the first non-Equal *)
 Fixpoint gorder (g : goal) (sa sb : list Z) : comparison :=
@@ -136,6 +168,8 @@ Definition build (b : builder) : gres gctx :=
 (* impl HeuristicObjective for GoalContext :: total_order ; GoalContext::fitness *)
 Definition ctx_total_order (c : gctx) (sa sb : list Z) : comparison := gorder (cgoal c) sa sb.
 Definition ctx_fitness (c : gctx) (s : list Z) : list Z := gfitness (cgoal c) s.
+(* GoalContext::estimate *)
+Definition ctx_estimate (c : gctx) (e : list Z) : option (list Z) := gestimate (cgoal c) e.
 
 (* GoalContext::get_alternative : Self { goal: alternative_goals[idx].clone(), ..self.clone() } *)
 Definition get_alternative (c : gctx) (idx : nat) : gres gctx :=
@@ -197,7 +231,7 @@ Fixpoint read_layers (objs : list pobjective) (k : nat) : gres (list feat * list
     | [] => GErr E_DEFAULT_ID                       (* FeatureCombinator: name "" *)
     | _ =>
       let n := length ts in
-      let ok := match st with SSum => true | SWeightedSum w => (w =? n)%nat end in
+      let ok := match st with SSum => true | SWeightedSum ws => (length ws =? n)%nat end in
       if negb (existsb tag_has_aux ts) then GErr E_EMPTY_FEATURE
       else if negb ok then GErr E_WEIGHTS
       else gbind (read_layers rest (k + n)) (fun r =>
@@ -214,6 +248,25 @@ Definition read_goal (objs : option (list pobjective)) (has_value : bool) : gres
        gbind (with_features (fst r ++ [capacity_feat])) (fun b =>
        gbind (goal_build (snd r)) (fun g => build (set_main_goal b g)))).
 
+(* ---------- vrp-scientific: the goal contexts of the text readers ---------- *)
+(* get_essential_features: min_unassigned (objective 0 of the state vector), min_tours (1), min_distance (2), capacity (no objective) *)
+Definition N_UNASSIGNED : name := [1%nat].
+Definition N_TOURS : name := [2%nat].
+Definition N_DISTANCE : name := [3%nat].
+Definition N_CAPACITY : name := [4%nat].
+Definition sci_features : list feat :=
+  [ {| fname := N_UNASSIGNED; fobj := Some (OFeat 0) |}; {| fname := N_TOURS; fobj := Some (OFeat 1) |};
+    {| fname := N_DISTANCE; fobj := Some (OFeat 2) |}; {| fname := N_CAPACITY; fobj := None |} ].
+(* create_goal_context_prefer_min_tours (true) / create_goal_context_distance_only (false):
+   with_features(..)?.set_main_goal(subset_of(main)?).add_alternative_goal(subset_of(other)?).build() *)
+Definition sci_goal_context (prefer_min_tours : bool) : gres gctx :=
+  let full := [N_UNASSIGNED; N_TOURS; N_DISTANCE] in
+  let short := [N_UNASSIGNED; N_DISTANCE] in
+  gbind (with_features sci_features) (fun b =>
+  gbind (goal_subset_of sci_features (if prefer_min_tours then full else short)) (fun m =>
+  gbind (goal_subset_of sci_features (if prefer_min_tours then short else full)) (fun a =>
+  build (add_alternative_goal (set_main_goal b m) a)))).
+
 (* ---------- entry points of the correspondence ---------- *)
 Definition res_z {A} (f : A -> list (list Z)) (r : gres A) : list (list Z) :=
   match r with GOk a => f a | GErr e => [[-1; Z.of_nat e]] end.
@@ -225,41 +278,66 @@ Definition observe (sa sb : list Z) (c : gctx) : list (list Z) :=
 Definition observe_paths (paths : list (list (bool * nat))) (sa sb : list Z) (c0 : gctx) : list (list Z) :=
   flat_map (fun p => res_z (observe sa sb) (follow c0 p)) paths.
 
-(* core stream: features f_i (flag: carries IdxObjective(i)); a goal specification is (via, layers):
-   via 0 = Goal::subset_of(features, names of the first index of every layer), via 1 = GoalBuilder (kind 0 add_single, 1 add_multi) *)
+(* core stream: features f_i (flag: carries IdxObjective(i)); a goal specification is (via, layers), a layer (kind, indices, weights):
+   via 0 = Goal::subset_of(features, names of the first index of every layer), via 1 = GoalBuilder (kind 0 add_single, 1 add_multi
+   with the comparator / estimate of strategy `sum`, 2 add_multi with those of `weighted-sum` and the given weights) *)
 Definition fname_of (i : Z) : name := [S (Z.to_nat i)].
 Definition feats_of (flags : list Z) : list feat :=
   map (fun p => {| fname := fname_of (Z.of_nat (fst p));
                    fobj := if snd p =? 0 then None else Some (OFeat (fst p)) |}) (combine (seq 0 (length flags)) flags).
-Definition layer_of (l : Z * list Z) : glayer :=
-  if fst l =? 0 then GSingle (OFeat (Z.to_nat (hd 0 (snd l)))) else GMulti SSum (map (fun i => OFeat (Z.to_nat i)) (snd l)).
-Definition goal_of (fs : list feat) (spec : Z * list (Z * list Z)) : gres goal :=
-  if fst spec =? 0 then goal_subset_of fs (map (fun l => fname_of (hd 0 (snd l))) (snd spec))
+Definition lspec : Type := Z * list Z * list Z.
+Definition gspec : Type := Z * list lspec.
+Definition layer_of (l : lspec) : glayer :=
+  let '(k, idxs, ws) := l in
+  if k =? 0 then GSingle (OFeat (Z.to_nat (hd 0 idxs)))
+  else GMulti (if k =? 1 then SSum else SWeightedSum ws) (map (fun i => OFeat (Z.to_nat i)) idxs).
+Definition goal_of (fs : list feat) (spec : gspec) : gres goal :=
+  if fst spec =? 0 then goal_subset_of fs (map (fun l : lspec => fname_of (hd 0 (snd (fst l)))) (snd spec))
   else goal_build (map layer_of (snd spec)).
-Fixpoint add_alts (fs : list feat) (b : builder) (alts : list (Z * list (Z * list Z))) : gres builder :=
+Fixpoint add_alts (fs : list feat) (b : builder) (alts : list gspec) : gres builder :=
   match alts with
   | [] => GOk b
   | a :: alts' => gbind (goal_of fs a) (fun g => add_alts fs (add_alternative_goal b g) alts')
   end.
 Definition path_of (p : list (Z * Z)) : list (bool * nat) := map (fun hd => (negb (fst hd =? 0), Z.to_nat (snd hd))) p.
 
-Definition run_gctx (flags : list Z) (main : option (Z * list (Z * list Z))) (alts : list (Z * list (Z * list Z)))
-                    (paths : list (list (Z * Z))) (sa sb : list Z) : list (list Z) :=
+Definition gctx_of (flags : list Z) (main : option gspec) (alts : list gspec) : gres gctx :=
   let fs := feats_of flags in
-  res_z (observe_paths (map path_of paths) sa sb)
-    (gbind (with_features fs) (fun b =>
-     gbind (match main with None => GOk b | Some m => gbind (goal_of fs m) (fun g => GOk (set_main_goal b g)) end) (fun b1 =>
-     gbind (add_alts fs b1 alts) build))).
+  gbind (with_features fs) (fun b =>
+  gbind (match main with None => GOk b | Some m => gbind (goal_of fs m) (fun g => GOk (set_main_goal b g)) end) (fun b1 =>
+  gbind (add_alts fs b1 alts) build)).
+
+Definition run_gctx (flags : list Z) (main : option gspec) (alts : list gspec)
+                    (paths : list (list (Z * Z))) (sa sb : list Z) : list (list Z) :=
+  res_z (observe_paths (map path_of paths) sa sb) (gctx_of flags main alts).
+
+(* the estimate of every context (one row per path; [-2] = the index panic of weights[idx]) for the estimate vector e *)
+(* NaN components are reported as the one pattern NAN_BITS (as the harness does: a single layer hands the NaN of its objective through) *)
+Definition canon (b : Z) : Z := if is_nan b then NAN_BITS else b.
+Definition est_z (o : option (list Z)) : list Z := match o with Some v => 1 :: map canon v | None => [-2] end.
+Definition run_gctx_est (flags : list Z) (main : option gspec) (alts : list gspec)
+                        (paths : list (list (Z * Z))) (e : list Z) : list (list Z) :=
+  res_z (fun c0 => flat_map (fun p => res_z (fun c => [est_z (ctx_estimate c e)]) (follow c0 (path_of p))) paths)
+        (gctx_of flags main alts).
 
 (* reader stream: objectives as (tag, strategy, inner): tag >= 0 a plain objective; tag = -1 a multi-objective with
-   strategy (-1 sum | n >= 0 weighted-sum with n weights) and inner tags (-1 = a nested multi-objective) *)
-Definition pobj_of (o : Z * Z * list Z) : pobjective :=
+   strategy (None sum | Some weights: weighted-sum) and inner tags (-1 = a nested multi-objective) *)
+Definition pobj_of (o : Z * option (list Z) * list Z) : pobjective :=
   let '(t, st, inner) := o in
   if 0 <=? t then PObj (Z.to_nat t)
-  else PMulti (if st <? 0 then SSum else SWeightedSum (Z.to_nat st))
+  else PMulti (match st with None => SSum | Some ws => SWeightedSum ws end)
               (map (fun i => if i <? 0 then INested else IObj (Z.to_nat i)) inner).
 (* observations of a list of solution pairs under every path *)
-Definition run_reader (objs : option (list (Z * Z * list Z))) (has_value : bool) (paths : list (list (Z * Z)))
+Definition run_reader (objs : option (list (Z * option (list Z) * list Z))) (has_value : bool) (paths : list (list (Z * Z)))
                       (pairs : list (list Z * list Z)) : list (list Z) :=
   res_z (fun c0 => flat_map (fun ab => observe_paths (map path_of paths) (fst ab) (snd ab) c0) pairs)
         (read_goal (option_map (map pobj_of) objs) has_value).
+(* the estimates of the main context and of every context of `paths` for moves given by the per-objective estimate vectors *)
+Definition run_reader_est (objs : option (list (Z * option (list Z) * list Z))) (has_value : bool) (paths : list (list (Z * Z)))
+                          (moves : list (list Z)) : list (list Z) :=
+  res_z (fun c0 => flat_map (fun e => flat_map (fun p => res_z (fun c => [est_z (ctx_estimate c e)]) (follow c0 (path_of p))) paths) moves)
+        (read_goal (option_map (map pobj_of) objs) has_value).
+(* scientific readers: observations of solution pairs (state vectors (unassigned, tours, distance)) under every path *)
+Definition run_sci (prefer_min_tours : bool) (paths : list (list (Z * Z))) (pairs : list (list Z * list Z)) : list (list Z) :=
+  res_z (fun c0 => flat_map (fun ab => observe_paths (map path_of paths) (fst ab) (snd ab) c0) pairs)
+        (sci_goal_context prefer_min_tours).
